@@ -101,6 +101,39 @@ def run(args):
                     R.spec_fail(dict(kind="uniform-not-preserved"), f"bwd_euler/{backend}, dt={dt}: uniform rest {c0} becomes {xu.tolist()}", dict(cell=du, dt=dt, backend=backend), xu.tolist())
         if len(R.samples) < 2:
             R.samples.append(dict(parents=d["parents"], ncomp=d["ncomp"], dts=dts))
+    # ---- networks (no synapses): every cell keeps its own charge, stays within its own bounds, and does not feel the other cells
+    NETS = [([[-1, 0, 0], [-1, 0, 0, 1, 1]], [[2, 2, 2], [2, 2, 2, 2, 2]]), ([[-1, 0, 1, 1], [-1, 0, 0]], [[1, 1, 1, 1], [1, 1, 1]]),
+            ([[-1, 0], [-1, 0]], [[2, 3], [2, 3]]), ([[-1], [-1, 0, 1, 2]], [[3], [3, 3, 3, 3]])]
+    for t in range(1 if args.tier == "quick" else 4):
+        ps, ns = NETS[(args.shard + t) % len(NETS)]
+        ds = [random_cell_desc(rng, morph=(p_, n_)) for p_, n_ in zip(ps, ns)]
+        net = build_net(ds)
+        total = sum(sum(d["ncomp"]) for d in ds)
+        stim = [x for d in ds for x in d["istim"]]
+        for dt in (DTS[(args.shard + t) % len(DTS)], 1.0):
+            for backend in BACKENDS:
+                st, x = Stepper(net, "bwd_euler", backend).step(stim, dt)
+                st0, x0 = Stepper(net, "bwd_euler", backend).step([0.0] * total, dt)
+                R.evaluations += 2
+                inpn = dict(cells=ds, dt=dt, backend=backend)
+                if st != "ok":
+                    R.count(f"net-refused:{backend}:{x}")
+                    if not (backend.startswith("jaxley") and x == "AssertionError"):
+                        R.spec_fail(dict(kind="illegitimate-refusal", backend=backend), f"bwd_euler/{backend} refuses a network with {x}", inpn, x)
+                    continue
+                R.count(f"net-ok:{backend}")
+                off = 0
+                for ci, d in enumerate(ds):
+                    n = sum(d["ncomp"]); A, C = spec_quantities(d)
+                    xs = x[off:off + n]
+                    o = parse_cable(drv.batch([cable_line(d, dt, xs, "bwd_euler")])[0])
+                    scale = sum(C[i] * (abs(xs[i]) + abs(d["v"][i])) / dt + 1e-3 * abs(d["istim"][i]) + A[i] * 1000 * d["g"][i] * (abs(xs[i]) + abs(d["e"][i])) for i in range(n))
+                    if not (abs(o["charge"]) <= 1e-9 * scale):
+                        R.spec_fail(dict(kind="charge-not-conserved", solver="bwd_euler", module="network"), f"bwd_euler/{backend}: cell {ci} of a network: charge imbalance {o['charge']:.3g} µA (scale {scale:.3g})", dict(cell_index=ci, **inpn), xs.tolist(), imbalance=o["charge"])
+                    lo = min(min(d["v"]), min(d["e"])); hi = max(max(d["v"]), max(d["e"]))
+                    if not all(lo - 1e-9 * (1 + abs(lo)) <= v <= hi + 1e-9 * (1 + abs(hi)) for v in x0[off:off + n]):
+                        R.spec_fail(dict(kind="overshoot", module="network"), f"bwd_euler/{backend}, dt={dt}: cell {ci} of a network leaves [{lo},{hi}]", dict(cell_index=ci, **inpn), x0[off:off + n].tolist())
+                    off += n
     R.explanation = ("charge balance, maximum principle (no overshoot, uniformity) and reciprocity are theorems about the symmetric cable "
                      "system on any finite node set; here they are evaluated as predicates on the implementation's outputs")
     R.assumptions = ["rounding: predicates carry 1e-9 relative slack", "model/implementation correspondence of these runs is check C01"]
